@@ -48,11 +48,21 @@ def seq_history(rng, kind):
         # grow, then drain: a tree of 3-5 levels is built and then emptied from the front, the back, the middle or at
         # random, so that leaves merge, inner nodes underflow and borrow from / merge with their left and right siblings,
         # and the root collapses -- with a dump (validated) after every erase and bound queries in between
-        n = rng.range(20, 140)
+        n = rng.range(20, 260)
         keys = gen_keys(rng, n, rng.choice(["sorted", "reverse", "random"]))
         ops = ["i:%d:%d" % k for k in keys] + ["d"]
         distinct = sorted(set(keys))
-        order = rng.choice(["front", "back", "middle", "random"])
+        order = rng.choice(["front", "back", "middle", "random", "runs", "runs"])
+        if order == "runs":
+            # runs of neighbouring keys at random places: one leaf underflows while its neighbours are still full, so
+            # it must BORROW (from the left or the right) instead of merging
+            todo, out_ = list(distinct), []
+            while todo and len(out_) < len(distinct) * 3 // 4:
+                s = rng.below(len(todo))
+                run = todo[s: s + rng.range(2, 6)]
+                out_ += run
+                todo = [k for k in todo if k not in run]
+            distinct = out_ + todo
         if order == "back":
             distinct.reverse()
         elif order == "middle":
@@ -173,14 +183,14 @@ def run(pid, tier, seed, kinds):
     chk.proof_stage()
     model = C.ocaml_driver("btree")
     rc, out, _ = C.sh([harness], input=b"maxkeys\n")
-    mk = dict(zip(("plain", "delete", "plain6", "delete6"), map(int, out.split())))
+    mk = dict(zip(("plain", "delete", "plainw", "deletew"), map(int, out.split())))
     stats = {"dumps": 0, "queries": 0, "seq_histories": 0, "par_histories": 0, "par_steps": 0, "maxKeys": mk}
     nseq = 400 if tier == "quick" else 8000
     hist = []
     for i in range(nseq):
         r = rng.fork("seq%d" % i)
         base = r.choice(kinds)
-        kind = base + ("6" if r.chance(1, 2) else "")       # half of the histories on 6-key nodes
+        kind = base + ("w" if r.chance(1, 2) else "")       # half of the histories on wide (12-key) nodes
         hints = r.below(2)
         hist.append((kind, hints, seq_history(r, base)))
     rc, out, err = C.sh([harness], input="".join("seq %s %d %s\n" % (k, h, " ".join(o)) for k, h, o in hist).encode(), timeout=3000)
@@ -204,7 +214,7 @@ def run(pid, tier, seed, kinds):
     for i in range(npar):
         r = rng.fork("par%d" % i)
         n, parts = par_history(r)
-        pars.append((r.choice(kinds) + ("6" if r.chance(1, 4) else ""), r.below(2), n, r.next() % (1 << 31), r.choice([15, 40, 75]), parts))
+        pars.append((r.choice(kinds) + ("w" if r.chance(1, 4) else ""), r.below(2), n, r.next() % (1 << 31), r.choice([15, 40, 75]), parts))
     inp = "".join("par %s %d %d %d %d | %s |\n" % (k, h, n, sd, sw, " | ".join(" ".join("i:%d:%d" % x for x in p) for p in parts)) for k, h, n, sd, sw, parts in pars)
     rc, out, err = C.sh([harness], input=inp.encode(), timeout=3000)
     plines = out.splitlines()
